@@ -25,6 +25,7 @@ LOW = [-0.5, -0.004, 0.0, 0.002, 0.1]
 UP = [-0.1, -0.002, 0.0, 0.004, 0.5]
 STATUS = [(c, s) for c in ("none", "left", "right") for s in (False, True)]
 W = 1000.0
+S_ROW_ORDERS = [None, {"baseline": "reversed", "feed": "reversed"}, {"baseline": "scattered"}]
 SELFCHECK_INDEX = 3
 
 
@@ -230,10 +231,15 @@ def _client(case, cov, viol):
     rhs = [n for n, s in contests if s[0] == "right"]
     stp = [n for n, s in contests if s[1]]
     base_cfg = E.make_cfg(pi_method="bootstrap", estimands=["margin"], features=["baseline_normalized_margin"], alphas=[0.7, 0.9], aggregates=aggs, model_parameters={"B": 10, "lambda_": 1.0})
+    # the files may list the states in any order (contest names and interval rows have to be matched by name)
+    order = S_ROW_ORDERS[(case["status"][0] + 2 * case["status"][1]) % len(S_ROW_ORDERS)]
+    if order:
+        base_cfg["row_order"] = order
+        cov["client_runs_with_unsorted_input_rows"] += 1
     cfg = dict(base_cfg, lhs=lhs, rhs=rhs, stop=stp)
     a = E.run_estimates(units, base_cfg)
     b = E.run_estimates(units, cfg)
-    ctx = f"client finer={case['finer']} " + " ".join(f"{n}={st}" for n, st in contests)
+    ctx = f"client finer={case['finer']} input_row_order={order or 'sorted'} " + " ".join(f"{n}={st}" for n, st in contests)
     if "error" in a:
         raise RuntimeError(a)
     if "error" in b:
@@ -356,4 +362,4 @@ def evaluate(case):
     return {"violations": V, "cov": dict(cov), "outcome": sha([v["sig"] for v in V] + [case["kind"]]), "nontrivial": nontrivial, "transitions": max(1, runs)}
 
 
-REQUIRED_COUNTERS = {"decision_rows": 10000, "rows_called_left": 1000, "rows_called_right": 1000, "rows_stopped": 1000, "rows_untouched": 1000, "rows_called_and_stopped": 500, "invalid_lists_rejected": 8, "client_runs": 50, "client_invalid_rejected": 6, "empty_contest_runs": 6, "history_runs": 100, "district_office_contest_rows": 200, "complete_election_runs": 30}
+REQUIRED_COUNTERS = {"decision_rows": 10000, "rows_called_left": 1000, "rows_called_right": 1000, "rows_stopped": 1000, "rows_untouched": 1000, "rows_called_and_stopped": 500, "invalid_lists_rejected": 8, "client_runs": 50, "client_invalid_rejected": 6, "empty_contest_runs": 6, "history_runs": 100, "district_office_contest_rows": 200, "complete_election_runs": 30, "client_runs_with_unsorted_input_rows": 40}
